@@ -17,13 +17,14 @@ OVERLAY = {
 P = {
     "id": "C10",
     "claimed": True,
-    "coq_targets": ["Properties/C10.vo", "Run/Eval_C10.vo", "C10/Sound.vo"],
+    "coq_targets": ["Properties/C10.vo", "Run/Eval_C10.vo", "C10/Sound.vo", "C10/SoundHist.vo"],
     "theorems_module": "Properties.C10",
     "theorems": ["C10_ttl_within_lifetime", "C10_store_positive", "C10_finalizer_token_not_expired", "C10_zero_disables",
                  "C10_config_only_shortens", "C10_http_not_stored_when_nonpositive", "C10_http_ttl_within_lifetime",
                  "C10_no_hit_after_expiry", "C10_no_hit_after_expiry_http",
                  "C10_F1_refuted", "C10_F1_history_refuted", "C10_F2_refuted", "C10_F3_refuted", "C10_nonvacuous",
-                 "C10_check_sound_fn", "C10_check_sound_exec", "C10_check_sound_http", "C10_check_sound_cache"],
+                 "C10_check_sound_fn", "C10_check_sound_exec", "C10_check_sound_http", "C10_check_sound_cache",
+                 "C10_check_sound_hist"],
     "streams": [{
         "name": "all", "pkg": "./internal/zzverif/c10", "test": "TestVerifC10", "overlay": OVERLAY,
         "eval_module": "Run.Eval_C10", "check_term": _CHECK,
